@@ -401,6 +401,11 @@ TIES = {
                     theorems=['match_conditions_eq', 'match_conditions_tie', 'matches_tie', 'report_mismatch_member_eq', 'report_mismatch_member_tie',
                               'report_mismatch_free_eq', 'report_mismatch_free_tie', 'hook_last_tie'],
                     cxx='call_matcher::match_conditions / matches / report_mismatch / hook_last and the free trompeloeil::report_mismatch (mock.hpp)'),
+    'Slots': dict(props=['C03', 'C05', 'C16', 'C17'], gen=['SetLimits', 'RuntimeTimes', 'AddLast', 'AddRetired', 'SetTracer', 'SetReporter1', 'SetReporter2'],
+                  theorems=['set_limits_tie', 'runtime_times_tie', 'add_last_tie', 'add_retired_tie', 'set_tracer_tie', 'set_reporter1_tie',
+                            'set_reporter2_tie', 'setreporter_sem'],
+                  cxx='sequence_handler_base::set_limits, runtime_times::action (RT_TIMES), sequence_type::add_last / add_retired, '
+                      'set_tracer, set_reporter (both overloads) (mock.hpp, sequence.hpp)'),
     'Ring': dict(props=['C14'], gen=['RingUnlink', 'RingElemDtor', 'RingMoveAssign', 'RingPushFront', 'RingPushBack', 'RingBegin', 'RingEnd',
                                     'RingIterIncr', 'RingIsLinked', 'RingListDtor'],
                  theorems=['ring_unlink_tie', 'ring_elem_dtor_tie', 'ring_move_assign_tie', 'ring_push_front_tie', 'ring_push_back_tie',
